@@ -176,10 +176,11 @@ class HplExpression(HplAstObject):
                 # the bound variable has the type of the elements of the domain
                 obj.domain.type_check_references(this_msg, variables)
                 token = _element_type_token(obj.domain, this_msg, variables)
+                scoped = variables
                 if token is not None and token.is_message:
-                    variables = dict(variables)
-                    variables[obj.variable] = token
-                obj.condition.type_check_references(this_msg, variables)
+                    scoped = dict(variables)
+                    scoped[obj.variable] = token
+                obj.condition.type_check_references(this_msg, scoped)
             elif obj.is_accessor:
                 obj.type_check_references(this_msg, variables)
                 # the chain itself has been checked; references inside its indices have not
